@@ -7,13 +7,16 @@
   has not passed: an instance that was due when it was stopped stays deliverable, at any later time — this is the
   callback that had already fired and was waiting for the controller's mutex.  `executeFailover` / `executeFailback`
   are split at their unlock points: `fire` is the first critical section (check, enter), the grace sleep is an
-  in-flight execution (`Exec`) and `wake j ok` is what follows the sleep (re-validation, role-change callback with
-  outcome `ok`, commit).  `advance` only moves the clock: nothing forces a due timer or sleeper to run promptly, so
+  in-flight execution (`Exec`, stage sleeping), `check j ok dur` is the critical section after the sleep
+  (re-validation) followed by the invocation of the role-change callback, which then runs WITHOUT the lock for `dur`
+  (stage calling) and answers `ok`, and `commit j` is the last critical section (commit or failure path).  `advance` only moves the clock: nothing forces a due timer or sleeper to run promptly, so
   every delayed or stale delivery is an ordinary history.
 
-  The model follows the code AS REPAIRED for D44 (ForceFailover executes, refuses while a failover is in progress),
-  D45 (timer generation: a callback of a cancelled or superseded timer does nothing) and the failback re-validation
-  after the grace period.  Assumptions: the role-change callback is instantaneous (callback and commit are one step);
+  The model follows the code AS REPAIRED (D44 ForceFailover executes; D45 timer generations; health re-validation
+  after the grace period on both paths; compensation at commit when the partner's health changed during the callback;
+  retry after a failed callback; superseded failback commit guard; health transitions delivered in order).
+  Assumptions: every change of the monitor's Healthy flag is delivered to the controller as partner_down /
+  partner_up, in order (health_monitor.go serialises them since bd43000; SetPartner announces its reset);
   the goroutine started by ForceFailover enters executeFailover before anything else happens (nothing can interleave
   observably: every other entry point ignores or refuses while the state is in_progress).
   Core Lean only.
@@ -48,12 +51,19 @@ structure Timer where
   delivered : Bool := false
   deriving DecidableEq, Repr
 
+inductive Stage where
+  | sleeping      -- in the grace sleep
+  | calling       -- the role-change callback is running (without the lock)
+  deriving DecidableEq, Repr
+
 structure Exec where
   kind    : TKind
   gen     : Nat
-  wake    : Nat                 -- end of the grace sleep
+  due     : Nat                 -- end of the grace sleep / of the callback
   forced  : Bool
   oldRole : Role
+  stage   : Stage := .sleeping
+  cbOk    : Bool := true        -- what the callback answers (known when it is invoked)
   -- history: when the execution was entered and since when the partner had then been down
   firedAt : Nat
   downSinceAtFire : Option Nat
@@ -63,7 +73,8 @@ structure Exec where
 inductive Emit where
   | initiated | completed (forced : Bool) | canceled | failbackInitiated | failbackCompleted
   | roleChanged (old new : Role)
-  | callback (r : Role) (ok : Bool)
+  | callback (r : Role) (ok : Bool)      -- the callback is invoked (its answer is known to the script)
+  | callbackFailed (r : Role)            -- the callback has returned an error
   deriving DecidableEq, Repr
 
 structure State where
@@ -84,6 +95,7 @@ structure State where
   promotions : Nat := 0               -- role changes standby → active
   completedEvents : Nat := 0          -- `completed` events emitted
   autoLog : List (Nat × Option Nat) := []   -- (firedAt, downSinceAtFire) of every promotion by the automatic path
+  forcedHold : Bool := false          -- the last promotion was operator-forced and no recovery was reported since
   deriving Repr
 
 def init (c : Cfg) : State := { cfg := c, role := c.original }
@@ -97,32 +109,43 @@ def markDelivered : List Timer → Nat → List Timer
   | t :: rest, 0 => { t with delivered := true } :: rest
   | t :: rest, i + 1 => t :: markDelivered rest i
 
-/-- handleHealthEvent(partner_down) -/
-def handleDown (s : State) : State :=
+def setExec : List Exec → Nat → Exec → List Exec
+  | [], _, _ => []
+  | _ :: rest, 0, e => e :: rest
+  | x :: rest, i + 1, e => x :: setExec rest i e
+
+/-- scheduleFailoverLocked -/
+def scheduleFailover (s : State) : State :=
   if s.role = .standby ∧ s.state = .normal then
     { s with state := .pending, gen := s.gen + 1,
              timers := stopAll .failover s.now s.timers ++
                [{ kind := .failover, gen := s.gen + 1, deadline := s.now + s.cfg.delay }] }
   else s
 
+/-- cancelFailoverLocked -/
+def cancelFailover (s : State) : State × List Emit :=
+  ({ s with state := .normal, gen := s.gen + 1, timers := stopAll .failover s.now s.timers,
+            canceled := s.canceled + 1 }, [.canceled])
+
+/-- scheduleFailbackLocked -/
+def scheduleFailback (s : State) : State :=
+  if s.state = .complete ∧ s.cfg.failbackEnabled then
+    { s with state := .failbackPending, gen := s.gen + 1,
+             timers := stopAll .failback s.now s.timers ++
+               [{ kind := .failback, gen := s.gen + 1, deadline := s.now + s.cfg.fbDelay }] }
+  else s
+
 /-- handleHealthEvent(partner_up) -/
 def handleUp (s : State) : State × List Emit :=
-  if s.state = .pending then
-    ({ s with state := .normal, gen := s.gen + 1, timers := stopAll .failover s.now s.timers,
-              canceled := s.canceled + 1 }, [.canceled])
-  else if s.state = .complete ∧ s.cfg.failbackEnabled then
-    ({ s with state := .failbackPending, gen := s.gen + 1,
-              timers := stopAll .failback s.now s.timers ++
-                [{ kind := .failback, gen := s.gen + 1, deadline := s.now + s.cfg.fbDelay }] }, [])
-  else (s, [])
+  if s.state = .pending then cancelFailover s else (scheduleFailback s, [])
 
-/-- the health monitor reports a transition to unhealthy -/
+/-- the health monitor reports a transition to unhealthy (flag change and partner_down, serialised) -/
 def down (s : State) : State × List Emit :=
-  if s.healthy then (handleDown { s with healthy := false, downSince := some s.now }, []) else (s, [])
+  if s.healthy then (scheduleFailover { s with healthy := false, downSince := some s.now }, []) else (s, [])
 
-/-- the health monitor reports a recovery -/
+/-- the health monitor reports a recovery (also: SetPartner resetting an unhealthy partner) -/
 def up (s : State) : State × List Emit :=
-  if s.healthy then (s, []) else handleUp { s with healthy := true, downSince := none }
+  if s.healthy then (s, []) else handleUp { s with healthy := true, downSince := none, forcedHold := false }
 
 /-- evaluateState (the 1 s control loop) -/
 def tick (s : State) : State × List Emit :=
@@ -140,41 +163,67 @@ def fire (s : State) (i : Nat) : State × List Emit :=
     match t.kind with
     | .failover =>
       if s.state = .pending ∧ t.gen = s.gen then
-        ({ s with state := .inProgress, initiated := s.initiated + 1,
-                  execs := s.execs ++ [{ kind := .failover, gen := t.gen, wake := s.now + s.cfg.grace, forced := false,
-                                         oldRole := s.role, firedAt := s.now, downSinceAtFire := s.downSince }] }, [])
+        if s.healthy then cancelFailover s
+        else
+          ({ s with state := .inProgress, initiated := s.initiated + 1,
+                    execs := s.execs ++ [{ kind := .failover, gen := t.gen, due := s.now + s.cfg.grace, forced := false,
+                                           oldRole := s.role, firedAt := s.now, downSinceAtFire := s.downSince }] }, [])
       else (s, [])
     | .failback =>
       if s.state = .failbackPending ∧ t.gen = s.gen then
         if s.healthy = false then ({ s with state := .complete }, [])
         else
-          ({ s with execs := s.execs ++ [{ kind := .failback, gen := t.gen, wake := s.now + s.cfg.grace, forced := false,
+          ({ s with execs := s.execs ++ [{ kind := .failback, gen := t.gen, due := s.now + s.cfg.grace, forced := false,
                                            oldRole := s.role, firedAt := s.now, downSinceAtFire := s.downSince }] }, [])
       else (s, [])
 
-/-- after the grace sleep: callback and commit -/
-def wake (s : State) (j : Nat) (ok : Bool) : State × List Emit :=
+/-- after the grace sleep: re-validation under the lock, then the role-change callback is invoked (it answers
+    `ok` after `dur`, running without the lock) -/
+def callCheck (s : State) (j : Nat) (ok : Bool) (dur : Nat) : State × List Emit :=
   match s.execs[j]? with
   | none => (s, [])
   | some e =>
-    if s.now < e.wake then (s, []) else
+    if e.stage ≠ .sleeping ∨ s.now < e.due then (s, []) else
+    match e.kind with
+    | .failover =>
+      if e.forced = false ∧ s.healthy = true then cancelFailover { s with execs := s.execs.eraseIdx j }
+      else
+        ({ s with execs := setExec s.execs j { e with stage := .calling, due := s.now + dur, cbOk := ok } },
+         [.callback .active ok])
+    | .failback =>
+      if s.state ≠ .failbackPending ∨ e.gen ≠ s.gen then ({ s with execs := s.execs.eraseIdx j }, [])
+      else if s.healthy = false then ({ s with execs := s.execs.eraseIdx j, state := .complete }, [])
+      else
+        ({ s with execs := setExec s.execs j { e with stage := .calling, due := s.now + dur, cbOk := ok } },
+         [.callback s.cfg.original ok])
+
+/-- the callback has returned: commit (or the failure path) under the lock -/
+def commit (s : State) (j : Nat) : State × List Emit :=
+  match s.execs[j]? with
+  | none => (s, [])
+  | some e =>
+    if e.stage ≠ .calling ∨ s.now < e.due then (s, []) else
     let s := { s with execs := s.execs.eraseIdx j }
     match e.kind with
     | .failover =>
-      if ok then
-        ({ s with role := .active, state := .complete, completed := s.completed + 1,
-                  promotions := s.promotions + (if s.role = .standby then 1 else 0),
-                  completedEvents := s.completedEvents + 1,
-                  autoLog := if e.forced then s.autoLog else s.autoLog ++ [(e.firedAt, e.downSinceAtFire)] },
-         [.callback .active true, .completed e.forced, .roleChanged e.oldRole .active])
-      else ({ s with state := .normal }, [.callback .active false])
+      if e.cbOk then
+        let s1 := { s with role := .active, state := .complete, completed := s.completed + 1, promotions := s.promotions + (if s.role = .standby then 1 else 0), completedEvents := s.completedEvents + 1, autoLog := if e.forced then s.autoLog else s.autoLog ++ [(e.firedAt, e.downSinceAtFire)], forcedHold := e.forced }
+        (if e.forced = false ∧ s1.healthy = true then scheduleFailback s1 else s1,
+         [.completed e.forced, .roleChanged e.oldRole .active])
+      else
+        let s1 := { s with state := .normal }
+        (if s1.healthy = false then scheduleFailover s1 else s1, [.callbackFailed .active])
     | .failback =>
-      if s.state ≠ .failbackPending ∨ e.gen ≠ s.gen then (s, [])
-      else if s.healthy = false then ({ s with state := .complete }, [])
-      else if ok then
-        ({ s with role := s.cfg.original, state := .normal, failbacks := s.failbacks + 1 },
-         [.callback s.cfg.original true, .failbackCompleted, .roleChanged e.oldRole s.cfg.original])
-      else ({ s with state := .complete }, [.callback s.cfg.original false])
+      if e.cbOk then
+        if s.role ≠ e.oldRole then (s, [])
+        else
+          let s1 := { s with role := s.cfg.original, state := .normal, failbacks := s.failbacks + 1 }
+          (if s1.healthy = false then scheduleFailover s1 else s1,
+           [.failbackCompleted, .roleChanged e.oldRole s.cfg.original])
+      else if s.state = .failbackPending ∧ e.gen = s.gen then
+        let s1 := { s with state := .complete }
+        (if s1.healthy = true then scheduleFailback s1 else s1, [.callbackFailed s.cfg.original])
+      else (s, [.callbackFailed s.cfg.original])
 
 /-- ForceFailover: initiateFailover, then the execution is started -/
 def forceFailover (s : State) : State × Bool × List Emit :=
@@ -183,7 +232,7 @@ def forceFailover (s : State) : State × Bool × List Emit :=
   else
     ({ s with state := .inProgress, gen := s.gen + 1, timers := stopAll .failover s.now s.timers,
               initiated := s.initiated + 1,
-              execs := s.execs ++ [{ kind := .failover, gen := s.gen + 1, wake := s.now + s.cfg.grace, forced := true,
+              execs := s.execs ++ [{ kind := .failover, gen := s.gen + 1, due := s.now + s.cfg.grace, forced := true,
                                      oldRole := s.role, firedAt := s.now, downSinceAtFire := s.downSince }] },
      true, [.initiated])
 
@@ -195,7 +244,8 @@ inductive Op where
   | down | up | tick
   | advance (dt : Nat)
   | fire (i : Nat)
-  | wake (j : Nat) (ok : Bool)
+  | check (j : Nat) (ok : Bool) (dur : Nat)
+  | commit (j : Nat)
   | forceFailover | forceFailback
   deriving DecidableEq, Repr
 
@@ -205,7 +255,8 @@ def step (s : State) : Op → State × List Emit
   | .tick => tick s
   | .advance dt => ({ s with now := s.now + dt }, [])
   | .fire i => fire s i
-  | .wake j ok => wake s j ok
+  | .check j ok dur => callCheck s j ok dur
+  | .commit j => commit s j
   | .forceFailover => ((forceFailover s).1, (forceFailover s).2.2)
   | .forceFailback => ((forceFailback s).1, (forceFailback s).2.2)
 
@@ -213,14 +264,16 @@ def run (s : State) (ops : List Op) : State := ops.foldl (fun st op => (step st 
 
 /-! ## The monitor: the property judged on observations only
 
-  Per operation the harness reports the controller's role, state, counters and the stamped list of what it emitted
-  (events and callback invocations, in order).  The monitor knows the operations issued (health changes, clock
-  advances, operator commands) and the configuration. -/
+  Per operation the harness reports the scripted clock, the controller's role, state, counters and the stamped list
+  of what it emitted (events and callback invocations, in order; a health change made from inside a callback is
+  listed where it happened).  The monitor knows the operations issued (health changes, clock advances, operator
+  commands) and the configuration. -/
 
 inductive EvKind where
-  | cbOk (role : String) | cbFail
+  | cbOk (role : String) | cbFail (role : String) | cbFailed
   | roleChange (old new : String)
-  | completedAuto | completedForced
+  | completedAuto | completedForced | canceled
+  | health (up : Bool)
   | other
   deriving Repr, DecidableEq
 
@@ -244,6 +297,7 @@ inductive MOp where
 structure Mon where
   delay : Nat := 0
   grace : Nat := 0
+  failbackEnabled : Bool := true
   now   : Nat := 0
   healthy : Bool := true
   /-- start of the current uninterrupted down period -/
@@ -256,75 +310,121 @@ structure Mon where
   completed : Nat := 0
   forcedOutstanding : Nat := 0
   ipSince : Option Nat := none      -- in_progress observed continuously since (only clock advances in between)
+  cbs : List String := []           -- successful role-change callbacks not yet followed by their role change
+  cbActiveAt : Nat := 0             -- when the last callback(active) was invoked (= entry + grace period)
+  cbActiveDownSince : Option Nat := none   -- the down period as it stood when that execution was entered
+  lastExit : Option Nat := none     -- this operation: the last moment at which the state was certainly not in_progress
+  lastCbActive : Option Nat := none -- this operation: when callback(active) was last invoked
+  slack : Nat := 0                  -- the longest callback duration the script has configured so far
+  cbActiveHealthy : Bool := false   -- was the partner reported healthy when the last callback(active) was invoked
+  cbStandbyHealthy : Bool := true   -- … when the last callback(standby) was invoked
+  forcedHold : Bool := false        -- the last promotion was operator-forced and no recovery was reported since
+  -- per operation
+  promos : Nat := 0
+  compl  : Nat := 0
   deriving Repr
 
 abbrev Verdict := String × String
 
 /-- had the partner been reported down for the whole failover delay when the execution was entered at `tf`? -/
 def sustainedDown (m : Mon) (tf : Nat) : Bool :=
-  match m.ipDownSince.getD m.downSince with
+  match m.cbActiveDownSince with
   | some s => decide (s + m.delay ≤ tf)
   | none => false
 
-def checkEvents (m : Mon) (role : String) : List ObsEv → List String → Nat → Nat → Nat → List Verdict → (String × Nat × Nat × Nat × List Verdict)
-  -- returns (role, promotions, completedEvents, forcedUsed, verdicts); `cbs` = successful callbacks not yet consumed
-  | [], _, p, c, f, vs => (role, p, c, f, vs)
-  | e :: rest, cbs, p, c, f, vs =>
-    match e.kind with
-    | .cbOk r => checkEvents m role rest (r :: cbs) p c f vs
-    | .cbFail => checkEvents m role rest cbs p c f vs
-    | .roleChange _ new =>
-      let vs1 := if cbs.contains new then vs else
-        vs ++ [("role-before-callback", s!"role became {new} at {e.t} without a successful role-change callback before it")]
-      let vs2 := if new == "standby" && !m.healthy then
-        vs1 ++ [("failback-unhealthy", s!"failed back to standby at {e.t} while the partner was reported down")] else vs1
-      checkEvents m new rest (cbs.erase new) (if role == "standby" && new == "active" then p + 1 else p) c f vs2
-    | .completedAuto =>
-      let tf := e.t - m.grace
-      let vs1 := if decide (m.grace ≤ e.t) && sustainedDown m tf then vs else
-        vs ++ [("early-promotion", s!"automatic promotion completed at {e.t} (entered at {tf}) but the partner was not reported down throughout the {m.delay} ms before")]
-      checkEvents m role rest cbs p (c + 1) f vs1
-    | .completedForced =>
-      let vs1 := if f < m.forcedOutstanding then vs else
-        vs ++ [("early-promotion", s!"promotion at {e.t} claims to be operator-forced but no accepted ForceFailover is outstanding")]
-      checkEvents m role rest cbs p (c + 1) (f + 1) vs1
-    | .other => checkEvents m role rest cbs p c f vs
+def setHealth (m : Mon) (up : Bool) (t : Nat) : Mon :=
+  if up then (if m.healthy then m else { m with healthy := true, downSince := none, forcedHold := false })
+  else (if m.healthy then { m with healthy := false, downSince := some t } else m)
+
+def checkEvent (m : Mon) (e : ObsEv) : Mon × List Verdict :=
+  match e.kind with
+  | .cbOk r =>
+    ({ m with cbs := r :: m.cbs,
+              lastCbActive := if r == "active" then some e.t else m.lastCbActive,
+              lastExit := if r == "active" then m.lastExit else some e.t,
+              cbActiveHealthy := if r == "active" then m.healthy else m.cbActiveHealthy,
+              cbActiveAt := if r == "active" then e.t else m.cbActiveAt,
+              -- entered in an earlier operation: the picture recorded then; entered in this one: no operation
+              -- (hence no health report) lies between entry and now
+              cbActiveDownSince := if r == "active" then m.ipDownSince.getD m.downSince else m.cbActiveDownSince,
+              cbStandbyHealthy := if r == "standby" then m.healthy else m.cbStandbyHealthy }, [])
+  | .cbFail r => ({ m with lastCbActive := if r == "active" then some e.t else m.lastCbActive }, [])
+  | .cbFailed => ({ m with lastExit := some e.t, ipDownSince := none, lastCbActive := none }, [])
+  | .canceled => ({ m with lastExit := some e.t, ipDownSince := none, lastCbActive := none }, [])
+  | .health up => (setHealth m up e.t, [])
+  | .roleChange _ new =>
+    let v1 := if m.cbs.contains new then [] else
+      [("role-before-callback", s!"role became {new} at {e.t} without a successful role-change callback before it")]
+    let v2 := if new == "standby" && !m.cbStandbyHealthy then
+      [("failback-unhealthy", s!"failed back to standby at {e.t} although the partner was reported down when the role-change callback was invoked")] else []
+    ({ m with role := new, cbs := m.cbs.erase new, lastExit := some e.t, lastCbActive := none,
+              promos := if m.role == "standby" && new == "active" then m.promos + 1 else m.promos }, v1 ++ v2)
+  | .completedAuto =>
+    let tf := m.cbActiveAt - m.grace
+    let v1 := if decide (m.grace ≤ m.cbActiveAt) && sustainedDown m tf then [] else
+      [("early-promotion", s!"automatic promotion completed at {e.t} but the partner had not been reported down for the {m.delay} ms before the execution was entered")]
+    let v2 := if m.cbActiveHealthy then
+      [("early-promotion", s!"automatic promotion completed at {e.t} although the partner was reported healthy when the role-change callback was invoked")] else []
+    ({ m with compl := m.compl + 1, forcedHold := false, lastExit := some e.t, ipDownSince := none }, v1 ++ v2)
+  | .completedForced =>
+    let v1 := if 0 < m.forcedOutstanding then [] else
+      [("early-promotion", s!"promotion at {e.t} claims to be operator-forced but no accepted ForceFailover is outstanding")]
+    ({ m with compl := m.compl + 1, forcedOutstanding := m.forcedOutstanding - 1, forcedHold := true,
+              lastExit := some e.t, ipDownSince := none }, v1)
+  | .other => (m, [])
+
+def checkEvents (m : Mon) : List ObsEv → Mon × List Verdict
+  | [] => (m, [])
+  | e :: rest =>
+    let (m1, v1) := checkEvent m e
+    let (m2, v2) := checkEvents m1 rest
+    (m2, v1 ++ v2)
 
 def check (m : Mon) (op : MOp) (o : Snap) : Mon × List Verdict :=
   match op with
   | .new => ({ m with role := o.role, state := o.state, completed := o.completed }, [])
   | _ =>
+  let prevState := m.state
+  let prevCompleted := m.completed
+  let prevRole := m.role
   -- the clock and the health picture as of this operation
-  let m := { m with now := o.t }
+  let m := { m with now := o.t, promos := 0, compl := 0, lastExit := none, lastCbActive := none }
   let m := match op with
-    | .down => if m.healthy then { m with healthy := false, downSince := some m.now } else m
-    | .up => if m.healthy then m else
-        { m with healthy := true, downSince := none }
+    | .down => setHealth m false o.t
+    | .up => setHealth m true o.t
     | .forceFailover true => { m with forcedOutstanding := m.forcedOutstanding + 1 }
     | _ => m
-  let (role', promos, compl, fUsed, vs) := checkEvents m m.role o.evs [] 0 0 0 []
+  let (m, vs) := checkEvents m o.evs
   let vs := vs ++
-    (if role' == o.role then [] else
-      [("role-before-callback", s!"reported role is {o.role} but the emitted role changes lead to {role'}")]) ++
-    (let promos' := if role' == o.role then promos else
-        (if m.role == "standby" && o.role == "active" && promos == 0 then 1 else promos)
-     if promos' == compl && o.completed == m.completed + compl then [] else
-      [("completed-events", s!"{promos'} promotion(s) but {compl} completed event(s), counter moved by {o.completed - m.completed}")]) ++
+    (if m.role == o.role then [] else
+      [("role-before-callback", s!"reported role is {o.role} but the emitted role changes lead to {m.role}")]) ++
+    (let promos := if m.role == o.role then m.promos else
+        (if prevRole == "standby" && o.role == "active" && m.promos == 0 then 1 else m.promos)
+     if promos == m.compl && o.completed == prevCompleted + m.compl then [] else
+      [("completed-events", s!"{promos} promotion(s) but {m.compl} completed event(s), counter moved by {o.completed - prevCompleted}")]) ++
     (match op with
-      | .up => if m.state == "pending" && o.state != "normal" then
+      | .up => if prevState == "pending" && o.state != "normal" then
           [("not-cancelled", s!"partner recovered while the failover was pending but the state is {o.state}")] else []
-      | _ => [])
+      | _ => []) ++
+    (if o.state == "complete" && o.role == "active" && m.healthy && m.failbackEnabled && !m.forcedHold then
+      [("dual-active", s!"active and complete at {o.t} with the partner reported healthy and no failback scheduled")] else []) ++
+    (if o.state == "normal" && o.role == "standby" && !m.healthy then
+      [("stranded", s!"standby and normal at {o.t} with the partner reported down and no failover scheduled")] else [])
   -- stuck: in_progress across clock advances for longer than the grace period
   let ipSince := if o.state != "in_progress" then none else
-    match op, m.ipSince with
-    | .advance, some t => some t
-    | _, _ => some m.now
+    match op, m.ipSince, m.lastExit, m.lastCbActive with
+    -- was certainly not in_progress at x during this operation and is in it now:
+    --   a callback(active) invoked after x dates the entry exactly (entry + grace = invocation);
+    --   otherwise only a timer armed at or after x can have entered it
+    | _, _, _, some c => some (c - m.grace)
+    | _, _, some x, none => some (min m.now (x + m.delay))
+    | .advance, some t, none, _ => some t
+    | _, _, none, _ => some m.now
   let vs := vs ++ (match ipSince with
-    | some t => if m.grace < m.now - t then
-        [("stuck", s!"state in_progress since {t}, still in_progress at {m.now} (grace period {m.grace}) with nothing happening")] else []
+    | some t => if m.grace + m.slack < m.now - t then
+        [("stuck", s!"state in_progress since {t}, still in_progress at {m.now} (grace period {m.grace}, callback up to {m.slack}) with nothing happening")] else []
     | none => [])
-  ({ m with role := o.role, state := o.state, completed := o.completed,
-            forcedOutstanding := m.forcedOutstanding - fUsed, ipSince := ipSince,
+  ({ m with role := o.role, state := o.state, completed := o.completed, ipSince := ipSince,
             ipDownSince := if o.state != "in_progress" then none else
               match m.ipDownSince with
               | some d => some d
